@@ -178,7 +178,8 @@ PROPS = {
         lean_targets=["BB.Props.C17"],
         theorems=["BB.Props.C17.inv_step", "BB.Props.C17.single_instance", "BB.Props.C17.held_implies_running_open",
                   "BB.Props.C17.stop_after_all_done", "BB.Props.C17.do_blocked_while_stopping", "BB.Props.C17.fresh_instance_after_stop",
-                  "BB.Props.C17.unheld_not_stuck"],
+                  "BB.Props.C17.unheld_not_stuck", "BB.Props.C17.mu_step", "BB.Props.C17.unheld_stable",
+                  "BB.Props.C17.unheld_instance_is_eventually_stopped", "BB.Props.C17.demoRun_fair"],
         corr=[dict(family="worker", quick=300, thorough=5000, mismatch_is_violation=True, no_shrink=True,
                    nontrivial=has("fresh_instance_after_stop", "do_while_watcher_waiting", "stop_seen_before_hook"),
                    rule="worker: 1-5 free-running holders x 2-7 Do/done rounds with PRNG perturbation on one real Worker; verif hook points in Do's critical "
@@ -187,7 +188,8 @@ PROPS = {
                         "instance started exactly when the model says, stop closed only with no holder outstanding, Wait returns only at counter 0); non-trivial = "
                         "a fresh instance after a stop, a Do while the watcher is waiting on an earlier wait group")],
         assumptions=["the supplied function returns only after its stop channel is closed (contract)", "sync.WaitGroup / mutex semantics modelled"],
-        open_statements=["instance_stopped_when_unheld as a leadsTo theorem under fairness (only the no-stuck-state form unheld_not_stuck is proved)"],
+        open_statements=["unheld_instance_is_eventually_stopped assumes that no new Do arrives after the last done function was called (otherwise the instance is legitimately kept) "
+                         "and weak fairness for the watcher's and the function's steps"],
     ),
 }
 
